@@ -80,6 +80,7 @@ impl<T: ?Sized> Mutex<T> {
         let (id, class) = (self.id, self.class);
         rec::with(|r| {
             r.waiting.remove(&t);
+            r.lock_owner.insert(id, t);
             r.held.entry(t).or_default().push((id, class));
         });
     }
@@ -89,6 +90,11 @@ impl<T: ?Sized> Mutex<T> {
         let (id, class) = (self.id, self.class);
         rec::with(|r| {
             r.lock_ops += 1;
+            if let Some(o) = r.lock_owner.get(&id) {
+                if *o != t {
+                    r.bump("lock_contended");
+                }
+            }
             if let Some(h) = r.held.get(&t) {
                 let edges: Vec<&'static str> = h.iter().map(|x| x.1).collect();
                 for e in edges {
@@ -136,6 +142,7 @@ impl<'a, T: ?Sized> Drop for MutexGuard<'a, T> {
         let t = rec::current_task();
         let id = self.id;
         rec::with(|r| {
+            r.lock_owner.remove(&id);
             if let Some(h) = r.held.get_mut(&t) {
                 if let Some(pos) = h.iter().rposition(|x| x.0 == id) {
                     h.remove(pos);
